@@ -1,2 +1,3 @@
 pub use h_core::util;
+pub mod c03_common;
 pub mod txgen;
